@@ -189,7 +189,9 @@ def _density_float_safe(py):
         return False
     need = _total(py["labels"], py["spacing"])
     ratio = need / mw_e if mw_e else F(0)
-    if min(ratio - math.floor(ratio), math.ceil(ratio) - ratio) < F(1, 10 ** 9) and F(mw_f) != mw_e:
+    # the estimate is ceil(need / capacity) with a ROUNDED double division: unsafe whenever the exact
+    # quotient is within 1e-9 of an integer without being one (even when the product itself is exact)
+    if ratio.denominator != 1 and min(ratio - math.floor(ratio), math.ceil(ratio) - ratio) < F(1, 10 ** 9):
         return False
     return True
 
@@ -412,7 +414,7 @@ def gen(rng, tier):
         if math.floor(8 * F(mw_f)) != math.floor(8 * mw_e):
             continue
         ratio = need / mw_e
-        if min(ratio - math.floor(ratio), math.ceil(ratio) - ratio) < F(1, 10 ** 9) and F(mw_f) != mw_e:
+        if ratio.denominator != 1 and min(ratio - math.floor(ratio), math.ceil(ratio) - ratio) < F(1, 10 ** 9):
             continue
         o = _with_lw(rng, o, lw)
         o["labels"] = labs
